@@ -22,6 +22,7 @@ mod proc_gen;
 /// Verification hooks: read-only access to crate-private pure functions.
 #[cfg(glass_easel_verif)]
 pub mod verif_hooks {
+    pub use crate::binding_map::verif_bm_trace;
     pub use crate::parse::verif_trace;
 
     pub fn gen_lit_str(s: &str) -> String {
